@@ -146,6 +146,7 @@ func (e *Emu) DoCtx(ctx context.Context, r *Req) (resp *Resp) {
 	rec := httptest.NewRecorder()
 	type outcome struct{ panicked string }
 	done := make(chan outcome, 1)
+	gid := make(chan int64, 1)
 	go func() {
 		var o outcome
 		defer func() {
@@ -154,19 +155,32 @@ func (e *Emu) DoCtx(ctx context.Context, r *Req) (resp *Resp) {
 			}
 			done <- o
 		}()
+		gid <- vt.Goid()
 		e.Mux.ServeHTTP(rec, req)
 	}()
+	id := <-gid
 	var o outcome
-	select {
-	case o = <-done:
-	case <-time.After(HangAfter):
-		cancel() // lets a handler that waits for a lock with the request context give up
+wait:
+	for round := 0; ; round++ {
 		select {
-		case <-done:
-		case <-time.After(5 * time.Second):
+		case o = <-done:
+			break wait
+		case <-time.After(HangAfter):
 		}
-		resp.Panic = fmt.Sprintf("HANG: %s %s did not return within %s", r.Method, r.Path, HangAfter)
-		return resp
+		// blocked in a lock / channel wait in every sample = hung; anything else = an overloaded machine
+		stuck, states := vt.Stuck(id)
+		if stuck {
+			cancel() // lets a handler that waits for a lock with the request context give up
+			select {
+			case <-done:
+			case <-time.After(5 * time.Second):
+			}
+			resp.Panic = fmt.Sprintf("HANG: %s %s did not return within %s; its goroutine sits in %v", r.Method, r.Path, HangAfter, states)
+			return resp
+		}
+		if round >= 4 {
+			panic(fmt.Sprintf("HARNESS: %s %s has not returned after %d x %s but is not blocked (states %v): machine too slow to judge", r.Method, r.Path, round+1, HangAfter, states))
+		}
 	}
 	if o.panicked != "" {
 		resp.Panic = o.panicked
